@@ -317,33 +317,6 @@ let cbor_fmt : fmt = {
   extref = false;
 }
 
-(* UBJSON: expected value after encoding (img): uint64 above MaxInt64 become decimal
-   strings; in a typed uint array/map that needs 'H' every element does *)
-let maxint64 = z_of_string "9223372036854775807"
-let zgt a b = ZA.gt (zt_of_z a) (zt_of_z b)
-let dec_str (n : z) : cvalue = CStr (List.map (fun c -> z_of_int (Char.code c)) (List.of_seq (String.to_seq (string_of_z n))))
-
-let rec ubj_img_value (v : value) : cvalue =
-  match v with
-  | VNum ((KUint16 | KUint32 | KUint64 | KUint), n) when zgt n maxint64 -> dec_str n
-  | VArr vs -> CArr (List.map ubj_img_value vs)
-  | VObj kvs -> CObj (List.map (fun (k, x) -> (k, ubj_img_value x)) kvs)
-  | _ -> cv v
-
-let is_uint_bt bt = (bt = BUint16 || bt = BUint32 || bt = BUint64 || bt = BUint)
-let needs_h es = List.exists (fun s -> match s with SNum (_, n) -> zgt n maxint64 | _ -> false) es
-let scalar_h s = match s with SNum (_, n) -> dec_str n | _ -> CNil
-
-let rec ubj_img (t : tree) : cvalue =
-  match t with
-  | TVal (s, _) -> ubj_img_value (scalar_value s)
-  | TArr (_, _, es) -> CArr (List.map ubj_img es)
-  | TObj (_, _, ms) -> CObj (List.map (fun ((k, _), e) -> (k, ubj_img e)) ms)
-  | TXArr (bt, es) when is_uint_bt bt && needs_h es -> CArr (List.map scalar_h es)
-  | TXArr (_, es) -> CArr (List.map (fun s -> cv (scalar_value s)) es)
-  | TXObj (bt, ms) when is_uint_bt bt && needs_h (List.map snd ms) -> CObj (List.map (fun (k, s) -> (k, scalar_h s)) ms)
-  | TXObj (_, ms) -> CObj (List.map (fun (k, s) -> (k, cv (scalar_value s))) ms)
-
 let ubj_obs3 (r : (((event list * z) * uparser)) res) : string =
   match r with
   | Ok ((evs, err), _) -> Printf.sprintf "EV %s R %s" (toks_of_events evs) (verdict_of_err err)
